@@ -60,9 +60,29 @@ explicitly assigned packet still reads its value, the other live packet is unaff
 assigned again (T0/T1) the statement applies in full (reads the computed value, packs it).
 Part 6: single-packet histories over the 8 operations that contain TN; Part 7: the same over two live packets (exhaustive
 short bound + seeded samples of longer histories); Part 8: nested Ref(Inner) / Ref(Inner).repeated(n) histories with TN.
+Parts 9-11: the state "explicitly assigned a value that EQUALS the computed one" (explicit=True, explicit_value == f(tracked)) for
+every way a packet comes to be.  Such a packet reads exactly like an automatic one NOW and differs after the next change of the
+tracked field (it keeps the assigned value); with the default tracked value it reads like a fresh C() in every attribute.
+    own constructor      C(described=f(default)), C(described=f(v), tracked=v)   (starts of Part 1; inner packets passed by keyword)
+    Ref prototype        Ref(Inner(described=f(default)))  (prototype "consdefault": only the described keyword) next to
+                         Ref(Inner(described=f(v), tracked=v)) and the differing / tracked-only prototypes of Part 3
+    repeated default     Ref(Inner).repeated(n, default=[Inner(described=f(default)), Inner(described=k differing, tracked=v)]) and
+                         default=[Inner(described=f(v), tracked=v), Inner(tracked=v)]: the elements of Outer(n=2) are copies of them
+    optional Ref default Ref(Inner).when(tag, default=Inner(..)) with the explicit-equal (default tracked / tracked v) and differing keywords
+    copies               copy.deepcopy(p), pickle.loads(pickle.dumps(p)), p.as_prototype().clone() of a packet in ANY model state:
+                         operations CD / CP / CC replace the live packet by the copy, the model is not touched (a copy is in the same
+                         state); Part 9 enumerates every operation sequence that contains the copy operation; nested: the OUTER packet
+                         (holding explicit-equal / differing / automatic inner packets) is replaced by its copy before the first operation
+    The packet a copy was taken of is read once more at the end of the history: nothing was done to it, it reads as it did.
+Part 10 runs after EVERY single-packet start (all declarations), directly and through each copy, the fixed script
+    T0|T1 (change the tracked field), RD, PK, DEL, RD   in pure and in observed mode;
+Part 11 runs it on every inner packet of every nested start (PK packs the outer).  Counters explicit_equal_<origin>_* record, per way
+of coming to be, the reads / packs after the tracked field changed, the deletes and the reads after the delete of such packets.
 """
+import copy
 import itertools
 import os
+import pickle
 import time
 
 from .. import common
@@ -107,7 +127,26 @@ REQUIRED = (
     "nested_failing_read_histories", "nested_failing_read_histories_ref", "nested_failing_read_histories_seq",
     "nested_computed_reads_failed", "nested_computed_reads_after_failed_read",
     "nested_computed_reads_after_failed_read_on_other_inner", "nested_packs_after_failed_read_and_restore",
-)
+    # explicit value EQUAL to the computed one, for every way a packet comes to be (Parts 9-11)
+    "constructed_with_explicit_value_equal_to_computed", "constructed_explicit_equal_reading_like_default_packet",
+    "prototype_instances_with_explicit_value_equal_to_computed", "prototype_instances_explicit_equal_reading_like_default_packet",
+    "prototype_instances_explicit_equal_inner_generic_outer_generic", "prototype_instances_explicit_equal_inner_generic_outer_default",
+    "prototype_instances_explicit_equal_inner_generated_outer_generic", "prototype_instances_explicit_equal_inner_generated_outer_default",
+    "repeated_default_elements_with_explicit_value_equal_to_computed", "repeated_default_elements_explicit_equal_reading_like_default_packet",
+    "optional_ref_defaults_with_explicit_value_equal_to_computed", "optional_ref_defaults_explicit_equal_reading_like_default_packet",
+    "copies_in_explicit_equal_state", "copies_in_explicit_equal_state_deepcopy", "copies_in_explicit_equal_state_pickle",
+    "copies_in_explicit_equal_state_prototype_clone", "copies_explicit_equal_reading_like_default_packet",
+    "copies_in_explicit_differing_state", "copies_in_automatic_state", "originals_checked_after_copy",
+    "outer_copies_with_inner_in_explicit_equal_state", "outer_copies_with_inner_in_explicit_equal_state_deepcopy",
+    "outer_copies_with_inner_in_explicit_equal_state_pickle", "outer_copies_with_inner_in_explicit_equal_state_prototype_clone",
+    "copied_outer_inners_explicit_equal_reading_like_default_packet",
+    "copy_histories", "explicit_equal_script_histories", "nested_explicit_equal_script_histories", "nested_copied_outer_histories",
+    "nested_optional_ref_default_histories", "nested_repeated_default_element_histories",
+    "nested_instance_prototype_histories_consdefault",
+) + tuple("explicit_equal_%s_%s" % (_o, _e)
+          for _o in ("constructor", "prototype_instance", "repeated_default_element", "optional_ref_default", "deepcopy", "pickle",
+                     "prototype_clone", "outer_deepcopy", "outer_pickle", "outer_prototype_clone")
+          for _e in ("reads_after_tracked_change", "packs_after_tracked_change", "deletes", "reads_after_delete"))
 RULE = {
     "quick": "4 declarations (AutoLength over Data sized by the described field; the same with the described Int(2) inside "
              "a vectorised run pad/length/kind; AutoLength over a repeated Int; general Auto) x 3 code-generation option sets "
@@ -134,6 +173,15 @@ RULE = {
              "1..2 over 16 operations containing TN x 3 start pairs x 21 classes + 100 seeded samples (VERIF_SEED) of length 3..5 "
              "per class and start pair; Part 8 nested Ref(Inner) (length 1..3 over 8 operations) and Ref(Inner).repeated(n) with two "
              "inners (length 1..2 over 15 operations), sequences containing TN, 12 inner classes x 2 outer option sets x 3 starts. "
+             "Explicit value EQUAL to the computed one (Parts 9-11): Part 3 gains the prototype Ref(Inner(described=f(default))) "
+             "(reads like Inner()), the outers Ref(Inner).repeated(n, default=[2 instances]) (2 element lists; default-constructed: "
+             "length 1..2, unpacked: length 1) and Ref(Inner).when(tag, default=instance) (3 keyword sets, default-constructed and "
+             "unpacked, length 1..2), and for every default-constructed instance-prototype / default-object outer and a constructed "
+             "class-prototype outer with explicit-equal inner the three COPIES of the outer packet (deepcopy, pickle round trip, "
+             "as_prototype().clone(); length 1); Part 9: 12 plain classes x 6 starts x 3 copy operations x every sequence of length "
+             "1..3 (1..2 for vectorize=False) over the 7 operations + the copy operation that contains it; Part 10: every class x every "
+             "start x {no copy, 3 copies} x {T0, T1} followed by RD PK DEL RD, pure and observed; Part 11: the same script on every "
+             "inner packet of every nested start. "
              "Exhaustive for these bounds (the seeded samples of Part 7 are an addition beyond them). A history is non-trivial when start+operations contain at least "
              "one assignment/deletion/keyword/unpack affecting the described or tracked field (i.e. not only reads and packs of "
              "a plain C()); distinct = distinct (class, start, mode, operation sequence).",
@@ -143,6 +191,8 @@ RULE = {
                 "Part 5 layouts with length 1..5 (pure) / 4 (observed), two-packet histories 1..4; Part 6 length 1..4 and all "
                 "starts; Part 7 length 1..3 + 480 seeded samples of length 4..6 per class and start pair; Part 8 Ref 1..4, "
                 "repeated Ref 1..3. "
+                "Parts 9-11: copy histories of length 1..4 from all starts; optional-Ref-default outers length 1..4, default-element "
+                "outers 1..3, copied outers Ref 1..3 / repeated Ref 1..2; instance prototypes also with the vectorize=False inner. "
                 "Exhaustive for these bounds (the seeded samples of Part 7 are an addition beyond them). "
                 "Non-trivial as in quick; distinct = distinct (class, start, mode, first<=4 operations (<=3 in Part 2)) groups (the exact number "
                 "of executed histories is in counters histories_pure / histories_observed / two_packet_histories).",
@@ -173,6 +223,11 @@ ASSUMPTIONS = [
     "an optional field (.when) that is None packs as nothing (documented: None is the value of an absent optional field), so a packet "
     "with an explicitly assigned described field and an absent optional tracked field is judged on pack(); for a non-optional "
     "tracked field holding None no pack() is judged",
+    "a copy of a packet (copy.deepcopy, pickle round trip, as_prototype().clone(), the copy Ref makes of its prototype instance, the "
+    "copies Field.init makes of the default object of an optional Ref / of the default elements of a repeated Ref) is in the state "
+    "of the packet it was taken of: explicitly assigned exactly when that one was (also when the assigned value equals the computed "
+    "one, in which case both read like an automatic packet until the tracked field changes), and the packet it was taken of is not "
+    "affected by operations on the copy; if a copy operation returns the very same object nothing is judged about it (counted)",
     "chained variant: the extra slot prev is harness state (additional_slots); total of packet 1 = (len(value) + total of packet 0 as "
     "it currently reads) & 0xff; the second described field n of that class is never assigned and must pack as len(value)",
 ]
@@ -367,6 +422,37 @@ OPS = ("T0", "T1", "D0", "D1", "DEL", "RD", "PK")
 OPS8 = OPS + ("TN",)
 STATE_CHANGING = ("T0", "T1", "D0", "D1", "DEL", "TN")
 
+# ---- Part 9..11: every way a packet comes to be, in the state "explicitly assigned a value EQUAL to the computed one"
+# copy operations: the live packet is replaced by a copy of itself (the model is not touched: a copy is in the same state)
+COPY_OPS = ("CD", "CP", "CC")
+COPY_KIND = {"CD": "deepcopy", "CP": "pickle", "CC": "prototype_clone"}
+COPY_KINDS = ("deepcopy", "pickle", "prototype_clone")
+# the fixed tail run after every start state: change the tracked field, read, pack, delete, read
+SCRIPT_TAIL = ("RD", "PK", "DEL", "RD")
+ORIGINS = ("constructor", "prototype_instance", "repeated_default_element", "optional_ref_default",
+           "deepcopy", "pickle", "prototype_clone", "outer_deepcopy", "outer_pickle", "outer_prototype_clone")
+ORIGIN_STATE_COUNTERS = {
+    "constructor": ("constructed_with_explicit_value_equal_to_computed",),
+    "prototype_instance": ("prototype_instances_with_explicit_value_equal_to_computed",),
+    "repeated_default_element": ("repeated_default_elements_with_explicit_value_equal_to_computed",),
+    "optional_ref_default": ("optional_ref_defaults_with_explicit_value_equal_to_computed",),
+}
+for _k in COPY_KINDS:
+    ORIGIN_STATE_COUNTERS[_k] = ("copies_in_explicit_equal_state", "copies_in_explicit_equal_state_%s" % _k)
+    ORIGIN_STATE_COUNTERS["outer_" + _k] = ("outer_copies_with_inner_in_explicit_equal_state",
+                                            "outer_copies_with_inner_in_explicit_equal_state_%s" % _k)
+ORIGIN_EVENTS = ("reads_after_tracked_change", "packs_after_tracked_change", "deletes", "reads_after_delete")
+ORIGIN_EVENT_COUNTERS = {o: {e: "explicit_equal_%s_%s" % (o, e) for e in ORIGIN_EVENTS} for o in ORIGINS}
+
+
+def _copy_packet(p, kind):
+    """A copy of a live packet by one of the public ways."""
+    if kind == "deepcopy":
+        return copy.deepcopy(p)
+    if kind == "pickle":
+        return pickle.loads(pickle.dumps(p))
+    return p.as_prototype().clone()
+
 
 def class_source(variant, optname, optsrc):
     cname = "C17_%s_%s" % (variant["name"], optname)
@@ -474,7 +560,8 @@ def execute(ctx, starts, ops, mode, st, states=None):
     dname, tname, f = ctx.dname, ctx.tname, ctx.f
     chained, none_ok = ctx.chained, ctx.none_ok
     pk = []      # real packets
-    md = []      # models: [explicit, xval, tracked, others, tracked_changed_since_start, assigned_since_unpack]
+    md = []      # models: [explicit, xval, tracked, others, tracked_changed_since_start, assigned_since_unpack, origin]
+    #              origin: how the packet came to be while "explicit with a value equal to the computed one" (or None)
     for s in starts:
         try:
             if s[0] == "ctor":
@@ -482,10 +569,10 @@ def execute(ctx, starts, ops, mode, st, states=None):
                 p = cls(**kw)
                 explicit = dname in s[1]
                 m = [explicit, s[1].get(dname), _fresh(s[1].get(tname, ctx.v["default"])),
-                     {o: 0 for o in ctx.others}, False, None]
+                     {o: 0 for o in ctx.others}, False, None, None]
             else:
                 p = cls.unpack(s[1])
-                m = [False, None, _fresh(s[2]), dict(s[3]), False, False]
+                m = [False, None, _fresh(s[2]), dict(s[3]), False, False, None]
             if chained:
                 p.prev = pk[-1] if pk else None      # harness-owned extra slot: packet i computes from packet i-1
         except Exception as e:
@@ -494,6 +581,7 @@ def execute(ctx, starts, ops, mode, st, states=None):
         md.append(m)
     failed = [False] * len(pk)      # a computed read of this packet raised (tracked field None) earlier in the history
     nfailed = [0]
+    origs = []                      # (original packet, frozen model) left behind by the copy operations
 
     def auto_value(i):
         t = md[i][2]
@@ -511,6 +599,35 @@ def execute(ctx, starts, ops, mode, st, states=None):
     def visible(i):
         m = md[i]
         return m[1] if m[0] else auto_value(i)
+
+    def set_origin(i, origin):
+        # the packet i has just come to be (constructed / copied): remember how if it is explicit with the computed value
+        m = md[i]
+        if m[0]:
+            if m[1] == auto_value(i):
+                m[6] = origin
+                for name in ORIGIN_STATE_COUNTERS[origin]:
+                    st.add(name)
+                if m[2] == ctx.v["default"] and not any(m[3].values()):
+                    # every attribute reads like the one of a fresh C(): only the explicit flag differs
+                    st.add("copies_explicit_equal_reading_like_default_packet" if origin in COPY_KINDS
+                           else "constructed_explicit_equal_reading_like_default_packet")
+                return True
+        m[6] = None
+        return False
+
+    def origin_event(i, kind):
+        # kind "reads" / "packs" of a packet that came to be explicit-equal
+        m = md[i]
+        if m[0]:
+            if m[1] != auto_value(i):
+                st.add(ORIGIN_EVENT_COUNTERS[m[6]][kind + "_after_tracked_change"])
+        elif kind == "reads":
+            st.add(ORIGIN_EVENT_COUNTERS[m[6]]["reads_after_delete"])
+
+    for i in range(len(pk)):
+        if starts[i][0] == "ctor":
+            set_origin(i, "constructor")
 
     def failing_read(p, i):
         # the computed value does not exist: nothing is fixed about this read
@@ -583,6 +700,8 @@ def execute(ctx, starts, ops, mode, st, states=None):
                              "computed_read_failed_earlier_on_packets": [j for j, x in enumerate(failed) if x]})
                 if not m[0]:
                     note_computed_read(i)
+                if m[6]:
+                    origin_event(i, "reads")
             reads.append((r, t, o))
         # 2. pack every packet, compare with the reference encoding of what was just read
         for i, p in enumerate(pk):
@@ -605,6 +724,8 @@ def execute(ctx, starts, ops, mode, st, states=None):
                             {"step": step, "packet": i, "got": b2j(b), "want": b2j(want),
                              "reads": {"described": r, "tracked": t, "others": o},
                              "model": {"explicit": m[0], "explicit_value": m[1], "tracked": m[2]}})
+            if m[6]:
+                origin_event(i, "packs")
             if m[0]:
                 st.add("packs_explicit_consistent" if m[1] == auto_value(i) else "packs_explicit_inconsistent")
                 if t is None:
@@ -633,6 +754,22 @@ def execute(ctx, starts, ops, mode, st, states=None):
             st.add("dict_checks")
             if hasattr(p, "__dict__"):
                 return ("instance has a __dict__", {"step": step, "packet": i})
+        # 4. the packets a copy was taken of: nothing was done to them since, they still read as they did
+        if origs and step == len(ops) - 1:
+            for k, (po, mo, want) in enumerate(origs):
+                try:
+                    r = want if want is _BROKEN else getattr(po, dname)
+                    t = getattr(po, tname)
+                    o = {n: getattr(po, n) for n in ctx.others}
+                except Exception as e:
+                    return ("attribute read of a packet a copy was taken of raised %s" % type(e).__name__,
+                            {"step": step, "copy_number": k, "error": "%s: %s" % (type(e).__name__, str(e)[:300])})
+                st.add("originals_checked_after_copy")
+                if r != want or t != mo[2] or o != mo[3]:
+                    return ("a packet a copy was taken of reads differently after operations on the copy",
+                            {"step": step, "copy_number": k, "got": {"described": r, "tracked": t, "others": o},
+                             "want": {"described": want, "tracked": mo[2], "others": mo[3]},
+                             "model_of_original": {"explicit": mo[0], "explicit_value": mo[1], "tracked": mo[2]}})
         return None
 
     nops = len(ops)
@@ -660,10 +797,25 @@ def execute(ctx, starts, ops, mode, st, states=None):
                     st.add("sets_while_explicit")
                 setattr(p, dname, val)
                 m[0], m[1] = True, val
+                m[6] = None
                 if m[5] is False:
                     m[5] = True
+            elif op in COPY_KIND:
+                kind = COPY_KIND[op]
+                newp = _copy_packet(p, kind)
+                st.add("copies_taken")
+                if newp is p:
+                    st.add("copy_returned_the_same_object_not_judged")
+                else:
+                    want = _BROKEN if chained else visible(i)      # chained: depends on another packet, not frozen
+                    origs.append((p, [m[0], m[1], _fresh(m[2]), dict(m[3])], want))
+                    pk[i] = newp
+                    if not set_origin(i, kind):
+                        st.add("copies_in_explicit_differing_state" if m[0] else "copies_in_automatic_state")
             elif op == "DEL":
                 was = m[0]
+                if was and m[6]:
+                    st.add(ORIGIN_EVENT_COUNTERS[m[6]]["deletes"])
                 try:
                     delattr(p, dname)
                 except AttributeError:
@@ -688,6 +840,8 @@ def execute(ctx, starts, ops, mode, st, states=None):
                                  "computed_read_failed_earlier_on_packets": [j for j, x in enumerate(failed) if x]})
                     if not m[0]:
                         note_computed_read(i)
+                    if m[6]:
+                        origin_event(i, "reads")
             elif op == "PK":
                 vis = visible(i)
                 if vis is _BROKEN or (m[2] is None and not none_ok):
@@ -695,6 +849,8 @@ def execute(ctx, starts, ops, mode, st, states=None):
                 else:
                     b = p.pack()
                     st.add("packs_compared")
+                    if m[6]:
+                        origin_event(i, "packs")
                     want = ctx.encode(vis, m[2], m[3])
                     if b != want:
                         return ("pack() bytes differ from the reference encoding of the model state",
@@ -719,7 +875,9 @@ def execute(ctx, starts, ops, mode, st, states=None):
 def _witness(ctx, starts, ops, mode, detail):
     w = {"declaration": ctx.source, "class": ctx.cls.__name__, "variant": ctx.v["name"], "options": ctx.optname,
          "starts": starts, "ops": [list(o) for o in ops], "mode": mode,
-         "op_values": {"T0": ctx.tv[0], "T1": ctx.tv[1], "D0": ctx.kv[0], "D1": ctx.kv[1], "TN": None},
+         "op_values": {"T0": ctx.tv[0], "T1": ctx.tv[1], "D0": ctx.kv[0], "D1": ctx.kv[1], "TN": None,
+                       "CD": "packet = copy.deepcopy(packet)", "CP": "packet = pickle.loads(pickle.dumps(packet))",
+                       "CC": "packet = packet.as_prototype().clone()"},
          "described": ctx.dname, "tracked": ctx.tname}
     if ctx.chained:
         w["note"] = "packet i has its extra slot prev = packet i-1 (None for packet 0), set by the harness right after the start"
@@ -825,14 +983,19 @@ NESTED_ALPHABET_TN = {
 
 
 class NestedCtx:
-    def __init__(self, ictx, ocls, kind, ooptname, source, proto="class", proto_kw=None):
+    def __init__(self, ictx, ocls, kind, ooptname, source, proto="class", proto_kw=None, shape="plain"):
         self.ictx = ictx
         self.ocls = ocls
         self.kind = kind
         self.ooptname = ooptname
         self.source = source
-        self.proto = proto              # "class" | "cons" | "incons" | "tracked"
-        self.proto_kw = proto_kw        # keywords the prototype instance was built with (None for Ref(Inner))
+        self.proto = proto              # "class" | "cons" | "incons" | "tracked" | "consdefault" | "seqdefA" | "seqdefB"
+        # keywords the prototype instance was built with (None for Ref(Inner)); shape "optdef": keywords of the default
+        # instance; shape "seqdef": LIST of the keywords of the default elements
+        self.proto_kw = proto_kw
+        # "plain": Ref(proto) / Ref(proto).repeated(n);  "optdef": Ref(Inner).when(tag, default=Inner(..));
+        # "seqdef": Ref(Inner).repeated(n, default=[Inner(..), Inner(..)])
+        self.shape = shape
         self.prefix_name = "tag" if kind == "ref" else "n"
         self.holder = "inner" if kind == "ref" else "inners"
 
@@ -852,8 +1015,27 @@ def nested_module_source(variant, optname, optsrc):
             sname = "%s_Seq%s_%s" % (iname, tagp, ooptname)
             src += "\nclass %s(Packet):\n    __bisturi__ = %s\n    tag = Int(1)\n    inner = Ref(%s)\n" % (rname, ooptsrc, expr)
             src += "\nclass %s(Packet):\n    __bisturi__ = %s\n    n = Int(1)\n    inners = Ref(%s).repeated(n)\n" % (sname, ooptsrc, expr)
-            outers.append((rname, "ref", ooptname, proto, kw))
-            outers.append((sname, "seq", ooptname, proto, kw))
+            outers.append((rname, "ref", ooptname, proto, kw, "plain"))
+            outers.append((sname, "seq", ooptname, proto, kw, "plain"))
+
+    def inst(kw):
+        return "%s(%s)" % (iname, ", ".join("%s=%r" % (k, x) for k, x in kw.items()))
+
+    # packets that come to be as a copy of a DEFAULT object: optional Ref default, default elements of a repeated Ref
+    for proto, kw in prototype_keywords(variant):
+        if proto not in ("consdefault", "cons", "incons"):
+            continue
+        for ooptname, ooptsrc in OUTER_OPTSETS:
+            oname = "%s_Opt_P%s_%s" % (iname, proto, ooptname)
+            src += "\nclass %s(Packet):\n    __bisturi__ = %s\n    tag = Int(1)\n    inner = Ref(%s).when(tag, default=%s)\n" % (
+                oname, ooptsrc, iname, inst(kw))
+            outers.append((oname, "ref", ooptname, proto, kw, "optdef"))
+    for proto, kws in default_element_keywords(variant):
+        for ooptname, ooptsrc in OUTER_OPTSETS:
+            oname = "%s_Seq_%s_%s" % (iname, proto, ooptname)
+            src += "\nclass %s(Packet):\n    __bisturi__ = %s\n    n = Int(1)\n    inners = Ref(%s).repeated(n, default=[%s])\n" % (
+                oname, ooptsrc, iname, ", ".join(inst(kw) for kw in kws))
+            outers.append((oname, "seq", ooptname, proto, kws, "seqdef"))
     return iname, outers, src
 
 
@@ -865,6 +1047,18 @@ def prototype_keywords(v):
         ("cons", {d: f(len(tv0)), t: tv0}),
         ("incons", {d: v["k_incons"], t: tv0}),
         ("tracked", {t: tv0}),
+        # only the described keyword, with the value a fresh packet computes: the instance READS like Inner()
+        ("consdefault", {d: f(len(v["default"]))}),
+    ]
+
+
+def default_element_keywords(v):
+    """Default elements of Ref(Inner).repeated(n, default=[...]): explicit-equal / explicit-differing / automatic."""
+    d, t, f = v["described"], v["tracked"], v["f"]
+    tv0 = v["tv"][0]
+    return [
+        ("seqdefA", [{d: f(len(v["default"]))}, {d: v["k_incons"], t: tv0}]),
+        ("seqdefB", [{d: f(len(tv0)), t: tv0}, {t: tv0}]),
     ]
 
 
@@ -880,13 +1074,14 @@ def define_nested_classes(run, scratch, count=True):
             ictx = Ctx(icls, v, optname, src)
             if (icls.pack_impl is Packet.pack_impl) != (optname == "generic"):
                 run.inconclusive_because("nested inner %s: pack code path does not match option set %r" % (iname, optname))
-            for oname, kind, ooptname, proto, kw in outers:
+            for oname, kind, ooptname, proto, kw, shape in outers:
                 ocls = getattr(module, oname)
                 if (ocls.pack_impl is Packet.pack_impl) != (ooptname == "generic"):
                     run.inconclusive_because("nested outer %s: pack code path does not match option set %r" % (oname, ooptname))
-                out.append(NestedCtx(ictx, ocls, kind, ooptname, src, proto, kw))
+                out.append(NestedCtx(ictx, ocls, kind, ooptname, src, proto, kw, shape))
                 if count:
-                    run.cover("nested_classes", "%s inner=%s outer=%s/%s prototype=%s" % (v["name"], optname, kind, ooptname, proto))
+                    run.cover("nested_classes", "%s inner=%s outer=%s/%s prototype=%s%s" % (
+                        v["name"], optname, kind, ooptname, proto, "" if shape == "plain" else " shape=" + shape))
     return out
 
 
@@ -894,36 +1089,60 @@ def nested_starts(nctx):
     """JSON-able starts: {"how": "default"} | {"how": "ctor", "prefix": int, "inners": [kwargs...]}
     | {"how": "unpack", "raw": bytes, "prefix": int, "inners": [[parsed_tracked, others]...]}."""
     v = nctx.ictx.v
-    d, t = v["described"], v["tracked"]
+    d, t, f = v["described"], v["tracked"], v["f"]
     tv0, tv1 = v["tv"]
     raws = v["raws"]
+
+    def with_copies(base, starts):
+        # the same start, then the OUTER packet is replaced by a copy of itself before the first operation
+        return starts + [dict(base, copy=k, short=True) for k in COPY_KINDS]
+
+    if nctx.shape == "optdef":
+        r = raws[0]
+        base = {"how": "default", "prefix": 1, "protos": [dict(nctx.proto_kw)]}
+        # the copied outer is a plain Outer(): with an explicit-equal default it READS like a fresh packet all the way down
+        return with_copies({"how": "default", "protos": [dict(nctx.proto_kw)]}, [
+            base,
+            {"how": "unpack", "raw": b"\x05" + r[0], "prefix": 5, "inners": [[r[1], r[2]]], "proto": dict(nctx.proto_kw)},
+        ])
+    if nctx.shape == "seqdef":
+        ra, rb = raws[0], raws[1]
+        base = {"how": "default", "prefix": 2, "protos": [dict(kw) for kw in nctx.proto_kw]}
+        return with_copies({"how": "default", "protos": [dict(kw) for kw in nctx.proto_kw]}, [
+            base,
+            {"how": "unpack", "raw": b"\x02" + ra[0] + rb[0], "prefix": 2, "inners": [[ra[1], ra[2]], [rb[1], rb[2]]],
+             "proto": dict(nctx.proto_kw[0]), "short": True},
+        ])
     if nctx.proto_kw is not None:
         # instance prototype: "proto" records the keywords the default inner is a copy of (model input)
         if nctx.kind == "ref":
             r = raws[0]
-            return [
-                {"how": "default", "proto": dict(nctx.proto_kw)},
+            base = {"how": "default", "proto": dict(nctx.proto_kw)}
+            out = [
+                base,
                 {"how": "unpack", "raw": b"\x05" + r[0], "prefix": 5, "inners": [[r[1], r[2]]], "proto": dict(nctx.proto_kw)},
             ]
+            return with_copies(base, out) if d in nctx.proto_kw else out
         ra, rb = raws[0], raws[1]
         return [
             {"how": "ctor", "prefix": 2, "inners": [{}, {t: tv1}], "proto": dict(nctx.proto_kw)},
             {"how": "unpack", "raw": b"\x02" + ra[0] + rb[0], "prefix": 2, "inners": [[ra[1], ra[2]], [rb[1], rb[2]]],
              "proto": dict(nctx.proto_kw)},
         ]
+    kdef = f(len(v["default"]))
     if nctx.kind == "ref":
         r = raws[0]
-        return [
+        return with_copies({"how": "ctor", "prefix": 3, "inners": [{d: f(len(tv0)), t: tv0}]}, [
             {"how": "default"},
             {"how": "ctor", "prefix": 3, "inners": [{d: v["k_incons"], t: tv1}]},
             {"how": "unpack", "raw": b"\x05" + r[0], "prefix": 5, "inners": [[r[1], r[2]]]},
-        ]
+        ])
     ra, rb = raws[0], raws[1]
-    return [
+    return with_copies({"how": "ctor", "prefix": 2, "inners": [{d: kdef}, {d: v["k_incons"], t: tv1}]}, [
         {"how": "ctor", "prefix": 2, "inners": [{}, {t: tv0}]},
         {"how": "ctor", "prefix": 2, "inners": [{d: v["k_incons"], t: tv1}, {}]},
         {"how": "unpack", "raw": b"\x02" + ra[0] + rb[0], "prefix": 2, "inners": [[ra[1], ra[2]], [rb[1], rb[2]]]},
-    ]
+    ])
 
 
 def execute_nested(nctx, start, ops, st):
@@ -933,14 +1152,23 @@ def execute_nested(nctx, start, ops, st):
     dname, tname, f = ictx.dname, ictx.tname, ictx.f
     v = ictx.v
     how = start["how"]
+    copied = start.get("copy")
+    orig_outer = None
     try:
         if how == "default":
-            outer = nctx.ocls()
-            prefix = 0
-            kw = start.get("proto") or {}
-            md = [[dname in kw, kw.get(dname), _fresh(kw.get(tname, v["default"])), {o: 0 for o in ictx.others}, False, None]]
-            if dname in kw:
+            # the inner packets come to be as copies of the Ref prototype instance / of the default object(s) of the field
+            if "prefix" in start:
+                prefix = start["prefix"]
+                outer = nctx.ocls(**{nctx.prefix_name: prefix})
+            else:
+                outer = nctx.ocls()
+                prefix = 0
+            kws = start.get("protos") or [start.get("proto") or {}]
+            md = [[dname in kw, kw.get(dname), _fresh(kw.get(tname, v["default"])), {o: 0 for o in ictx.others}, False, None, None]
+                  for kw in kws]
+            if any(dname in kw for kw in kws):
                 st.add("nested_default_inner_explicit_from_prototype")
+            origin = {"plain": "prototype_instance", "optdef": "optional_ref_default", "seqdef": "repeated_default_element"}[nctx.shape]
         elif how == "ctor":
             inners = [ictx.cls(**{k: _fresh(x) for k, x in kw.items()}) for kw in start["inners"]]
             prefix = start["prefix"]
@@ -948,12 +1176,23 @@ def execute_nested(nctx, start, ops, st):
                 outer = nctx.ocls(**{nctx.prefix_name: prefix, "inner": inners[0]})
             else:
                 outer = nctx.ocls(**{nctx.prefix_name: prefix, "inners": inners})
-            md = [[dname in kw, kw.get(dname), _fresh(kw.get(tname, v["default"])), {o: 0 for o in ictx.others}, False, None]
+            md = [[dname in kw, kw.get(dname), _fresh(kw.get(tname, v["default"])), {o: 0 for o in ictx.others}, False, None, None]
                   for kw in start["inners"]]
+            origin = "constructor"
         else:
             outer = nctx.ocls.unpack(start["raw"])
             prefix = start["prefix"]
-            md = [[False, None, _fresh(x[0]), dict(x[1]), False, False] for x in start["inners"]]
+            md = [[False, None, _fresh(x[0]), dict(x[1]), False, False, None] for x in start["inners"]]
+            origin = None
+        if copied:
+            newo = _copy_packet(outer, copied)
+            st.add("nested_outer_copies_taken")
+            if newo is outer:
+                st.add("copy_returned_the_same_object_not_judged")
+            else:
+                orig_outer = outer
+                outer = newo
+                origin = "outer_" + copied
         held = getattr(outer, nctx.holder)
         pk = [held] if nctx.kind == "ref" else list(held)
     except Exception as e:
@@ -961,6 +1200,23 @@ def execute_nested(nctx, start, ops, st):
     if len(pk) != len(md) or not all(isinstance(p, ictx.cls) for p in pk):
         return ("outer packet does not hold the expected inner packets after the start",
                 {"step": -1, "got": [type(p).__name__ for p in pk], "want": len(md)})
+    orig_want = None
+    if orig_outer is not None:
+        # what the packet the copy was taken of reads as now: nothing is done to it in this history
+        orig_want = [(m[1] if m[0] else f(len(m[2])), _fresh(m[2]), dict(m[3])) for m in md]
+    if origin is not None:
+        for m in md:
+            if m[0] and m[1] == f(len(m[2])):
+                m[6] = origin
+                for name in ORIGIN_STATE_COUNTERS[origin]:
+                    st.add(name)
+                if origin == "prototype_instance":
+                    st.add("prototype_instances_explicit_equal_inner_%s_outer_%s" % (
+                        "generic" if ictx.optname == "generic" else "generated", nctx.ooptname))
+                if m[2] == v["default"] and how == "default":
+                    # every attribute of this packet reads like the one of a fresh Inner(): only the explicit flag differs
+                    st.add("%s_explicit_equal_reading_like_default_packet" % (
+                        "copied_outer_inners" if copied else ORIGIN_STATE_COUNTERS[origin][0].split("_with_")[0]))
     unpacked = how == "unpack"
     generic_inner = ictx.optname == "generic"
     unpacked_explicit_proto = unpacked and dname in (start.get("proto") or {})
@@ -973,6 +1229,13 @@ def execute_nested(nctx, start, ops, st):
         if m[0]:
             return m[1]
         return _BROKEN if m[2] is None else f(len(m[2]))
+
+    def origin_event(m, kind):
+        if m[0]:
+            if m[2] is None or m[1] != f(len(m[2])):
+                st.add(ORIGIN_EVENT_COUNTERS[m[6]][kind + "_after_tracked_change"])
+        elif kind == "reads":
+            st.add(ORIGIN_EVENT_COUNTERS[m[6]]["reads_after_delete"])
 
     def failing_read(p, i):
         try:
@@ -1030,6 +1293,10 @@ def execute_nested(nctx, start, ops, st):
                     st.add("nested_packs_after_outer_unpack")
             if unpacked_explicit_proto and tchanged[0]:
                 st.add("nested_unpacked_explicit_prototype_packs_after_tracked_change")
+            if not attempt:
+                for m in md:
+                    if m[6]:
+                        origin_event(m, "packs")
             if b != want:
                 return ("outer pack() bytes differ from prefix byte + reference encoding of what the inner attributes read"
                         + (" (second consecutive pack)" if attempt else ""),
@@ -1060,6 +1327,8 @@ def execute_nested(nctx, start, ops, st):
                 st.add("nested_computed_reads_after_failed_read")
                 if any(x for j, x in enumerate(failed) if j != i):
                     st.add("nested_computed_reads_after_failed_read_on_other_inner")
+            if m[6] and want is not _BROKEN:
+                origin_event(m, "reads")
         return reads, None
 
     nops = len(ops)
@@ -1091,8 +1360,11 @@ def execute_nested(nctx, start, ops, st):
                     setattr(p, dname, val)
                     m[0], m[1] = True, val
                     m[4] = True
+                    m[6] = None
                 elif op == "DEL":
                     was = m[0]
+                    if was and m[6]:
+                        st.add(ORIGIN_EVENT_COUNTERS[m[6]]["deletes"])
                     try:
                         delattr(p, dname)
                     except AttributeError:
@@ -1117,6 +1389,8 @@ def execute_nested(nctx, start, ops, st):
                         st.add("nested_computed_reads_after_failed_read")
                         if any(x for j, x in enumerate(failed) if j != i):
                             st.add("nested_computed_reads_after_failed_read_on_other_inner")
+                    if m[6]:
+                        origin_event(m, "reads")
                 else:
                     raise RuntimeError("unknown op %r" % (op,))
         except RuntimeError:
@@ -1150,6 +1424,20 @@ def execute_nested(nctx, start, ops, st):
     st.add("dict_checks")
     if hasattr(outer, "__dict__") or any(hasattr(p, "__dict__") for p in pk):
         return ("instance has a __dict__ (nested)", {"step": step})
+    if orig_outer is not None:
+        # the outer packet the copy was taken of: nothing was done to it, its inner packets still read as they did
+        try:
+            oheld = getattr(orig_outer, nctx.holder)
+            got = [(getattr(p, dname), getattr(p, tname), {n: getattr(p, n) for n in ictx.others})
+                   for p in ([oheld] if nctx.kind == "ref" else list(oheld))]
+        except Exception as e:
+            return ("attribute read of the outer packet a copy was taken of raised %s" % type(e).__name__,
+                    {"step": step, "error": "%s: %s" % (type(e).__name__, str(e)[:300])})
+        st.add("originals_checked_after_copy")
+        if got != orig_want:
+            return ("the outer packet a copy was taken of reads differently after operations on the copy",
+                    {"step": step, "got": [{"described": r, "tracked": t, "others": o} for r, t, o in got],
+                     "want": [{"described": r, "tracked": t, "others": o} for r, t, o in orig_want]})
     return None
 
 
@@ -1157,16 +1445,19 @@ def _nested_witness(nctx, start, ops, detail):
     ictx = nctx.ictx
     w = {"declaration": nctx.source, "nested": True, "inner_class": ictx.cls.__name__, "outer_class": nctx.ocls.__name__,
          "outer_kind": nctx.kind, "outer_options": nctx.ooptname, "variant": ictx.v["name"], "options": ictx.optname,
-         "ref_prototype": nctx.proto, "ref_prototype_keywords": nctx.proto_kw,
+         "ref_prototype": nctx.proto, "ref_prototype_keywords": nctx.proto_kw, "outer_shape": nctx.shape,
          "start": start, "ops": [list(o) for o in ops], "mode": "pure",
          "op_values": {"T0": ictx.tv[0], "T1": ictx.tv[1], "D0": ictx.kv[0], "D1": ictx.kv[1], "TN": None},
          "described": ictx.dname, "tracked": ictx.tname,
-         "note": "ops [i, OP] act on inner packet i; [-1, 'PK'] packs the OUTER packet; the closing observation packs the outer"}
+         "note": "ops [i, OP] act on inner packet i; [-1, 'PK'] packs the OUTER packet; the closing observation packs the outer; "
+                 "start 'default': Outer([prefix]) whose inner packet(s) are copies of the prototype / default object(s) built with the "
+                 "keywords 'proto' / 'protos'; start key 'copy': the outer packet is replaced by copy.deepcopy(outer) / "
+                 "pickle.loads(pickle.dumps(outer)) / outer.as_prototype().clone() before the first operation"}
     lf = ictx.last_failed
     if lf is not None and not (lf[0] is nctx and lf[1] == start and tuple(lf[2]) == tuple(ops)):
         w["preceding_history_with_failed_computed_read_on_same_class"] = {
             "outer_class": lf[0].ocls.__name__, "outer_kind": lf[0].kind, "outer_options": lf[0].ooptname,
-            "ref_prototype": lf[0].proto, "ref_prototype_keywords": lf[0].proto_kw,
+            "ref_prototype": lf[0].proto, "ref_prototype_keywords": lf[0].proto_kw, "outer_shape": lf[0].shape,
             "start": lf[1], "ops": [list(o) for o in lf[2]],
             "note": "executed earlier in this process on other inner packets of the same class; replay runs it first"}
     w.update(detail)
@@ -1179,6 +1470,22 @@ def _has_tn(ops):
         if op == "TN":
             return True
     return False
+
+
+def _has_op(ops, name):
+    for _, op in ops:
+        if op == name:
+            return True
+    return False
+
+
+def copy_start_indices(v, quick):
+    """Starts used by the copy histories (Part 9): all in the thorough tier; the quick tier leaves out C(tracked=v) and the
+    second and third unpack (the copy scripts of Part 10 still run from every start)."""
+    n = len(starts_for(v))
+    if not quick:
+        return list(range(n))
+    return [0, 1, 2, 4, 5, 6]
 
 
 def fail_start_indices(v, quick):
@@ -1212,6 +1519,9 @@ def run(run):
     LF2 = 2 if quick else 3           # Part 7: two-packet histories containing TN, exhaustive bound
     NF2 = 100 if quick else 480       # Part 7: seeded samples per (class, start pair), lengths LF2+1 .. LF2+3
     LF3 = {"ref": 3 if quick else 4, "seq": 2 if quick else 3}    # Part 8: nested histories containing TN
+    LC = 3 if quick else 4            # Part 9: single-packet histories containing a copy operation
+    LOPT = 2 if quick else 4          # Part 11: optional Ref default outers
+    LSHORT = {"ref": 1 if quick else 3, "seq": 1 if quick else 2}   # Part 11: copied outers, unpacked default-element outers
     # watchdog: CPU seconds of this process (a busy machine must not make the run inconclusive) + a generous wall limit
     cpu_budget = 200.0 if quick else 600.0
     wall_budget = 900.0 if quick else 840.0
@@ -1257,6 +1567,15 @@ def run(run):
                 for si in range(3):
                     for fo in range(len(TWO_OPS)):
                         jobs.append((2, ci, si, "pure", fo))
+            # Part 10: the fixed script (change tracked, read, pack, delete, read) after every start, also through each copy
+            for si in range(ns):
+                jobs.append((10, ci, si, "script", -1))
+            # Part 9: histories with a copy operation (the live packet is replaced by a deepcopy / pickle round trip / clone)
+            if v.get("plain"):
+                for si in copy_start_indices(v, quick):
+                    for cop in COPY_OPS:
+                        for fo in range(len(OPS) + 1):
+                            jobs.append((9, ci, si, cop, fo))
             if v.get("positioned"):
                 continue
             for si in fail_start_indices(v, quick):
@@ -1271,11 +1590,15 @@ def run(run):
         for ni, nctx in enumerate(nctxs):
             if quick and nctx.proto_kw is not None and nctx.ictx.optname == "novector":
                 continue        # quick tier: instance prototypes with generic and default inner classes only
-            for si in range(len(nested_starts(nctx))):
+            nstarts = nested_starts(nctx)
+            for si in range(len(nstarts)):
                 for fo in range(len(NESTED_ALPHABET[nctx.kind])):
                     jobs.append((3, ni, si, "pure", fo))
+                jobs.append((11, ni, si, "script", -1))      # the fixed script on every inner packet
             if nctx.proto_kw is None:
-                for si in range(len(nested_starts(nctx))):
+                for si in range(len(nstarts)):
+                    if nstarts[si].get("copy"):
+                        continue
                     for fo in range(len(NESTED_ALPHABET_TN[nctx.kind])):
                         jobs.append((8, ni, si, "pure", fo))
 
@@ -1287,6 +1610,26 @@ def run(run):
                 continue
             if stop:
                 break
+            if part == 11:
+                # fixed script on every inner packet: change the tracked field, read, pack the outer, delete, read
+                nctx = nctxs[ci]
+                start = nested_starts(nctx)[si]
+                run.cover("nested_starts", "%s/%s: %s" % (nctx.ictx.v["name"], nctx.kind, start))
+                n_exec = 0
+                for k in range(1 if nctx.kind == "ref" else 2):
+                    for top in ("T0", "T1"):
+                        ops = ((k, top), (k, "RD"), NPK, (k, "DEL"), (k, "RD"))
+                        run.case(key="11|%s|%d|%d%s" % (nctx.ocls.__name__, si, k, top), nontrivial=True)
+                        n_exec += 1
+                        bad = execute_nested(nctx, start, ops, st)
+                        if bad is not None:
+                            run.violation(bad[0], _nested_witness(nctx, start, ops, bad[1]), None)
+                            if run.counters["violations"] > 20:
+                                stop = True
+                run.count("nested_explicit_equal_script_histories", n_exec)
+                if start.get("copy"):
+                    run.count("nested_copied_outer_histories", n_exec)
+                continue
             if part == 3 or part == 8:
                 nctx = nctxs[ci]
                 start = nested_starts(nctx)[si]
@@ -1297,12 +1640,18 @@ def run(run):
                 run.cover("nested_starts", "%s/%s: %s" % (nctx.ictx.v["name"], nctx.kind, start))
                 n_exec = 0
                 maxlen = (LF3 if tn_only else (L3 if nctx.proto_kw is None else L3I))[nctx.kind]
+                if not tn_only:
+                    if start.get("short"):
+                        maxlen = LSHORT[nctx.kind]
+                    elif nctx.shape == "optdef":
+                        maxlen = LOPT
                 for length in range(1, maxlen + 1):
                     for rest in itertools.product(alphabet, repeat=length - 1):
                         ops = (first,) + rest
                         if tn_only and not _has_tn(ops):
                             continue
-                        nt = start["how"] != "default" or bool(start.get("proto")) or any(op in STATE_CHANGING for _, op in ops)
+                        nt = (start["how"] != "default" or bool(start.get("proto")) or bool(start.get("protos"))
+                              or any(op in STATE_CHANGING for _, op in ops))
                         if nt:
                             run.case(key=keybase + ",".join("%d%s" % o for o in ops[:3]), nontrivial=True)
                         else:
@@ -1328,7 +1677,13 @@ def run(run):
                     run.count("nested_failing_read_histories_%s" % nctx.kind, n_exec)
                     continue
                 run.count("nested_histories", n_exec)
-                if nctx.proto_kw is not None:
+                if start.get("copy"):
+                    run.count("nested_copied_outer_histories", n_exec)
+                if nctx.shape == "optdef":
+                    run.count("nested_optional_ref_default_histories", n_exec)
+                elif nctx.shape == "seqdef":
+                    run.count("nested_repeated_default_element_histories", n_exec)
+                elif nctx.proto_kw is not None:
                     run.count("nested_instance_prototype_histories", n_exec)
                     run.count("nested_instance_prototype_histories_%s" % nctx.proto, n_exec)
                 run.count("nested_histories_%s_outer_%s" % (nctx.kind, nctx.ooptname), n_exec)
@@ -1338,7 +1693,39 @@ def run(run):
             group = ctx.group
             short = group is not None
             need_tn = False
-            if part == 1:
+            need_copy = False
+            if part == 10:
+                # fixed scripts: [copy] T RD PK DEL RD, pure and observed
+                starts = [starts_for(v)[si]]
+                cur_st = stats_for(ctx)
+                run.cover("starts", "%s: %s" % (v["name"], starts))
+                n_exec = 0
+                prefixes = [()] if ctx.chained else [()] + [(c,) for c in COPY_OPS]
+                for pre in prefixes:
+                    for top in ("T0", "T1"):
+                        ops = tuple((0, o) for o in pre + (top,) + SCRIPT_TAIL)
+                        for smode in ("pure", "observed"):
+                            run.case(key="10|%s|%d|%s|%s" % (ctx.cls.__name__, si, smode, ",".join(o for _, o in ops)), nontrivial=True)
+                            n_exec += 1
+                            bad = execute(ctx, starts, ops, smode, cur_st, states)
+                            if bad is not None:
+                                run.violation(bad[0], _witness(ctx, starts, ops, smode, bad[1]), None)
+                                if run.counters["violations"] > 20:
+                                    stop = True
+                run.count("explicit_equal_script_histories", n_exec)
+                run.count("histories_%s_%s" % (v["name"], ctx.optname), n_exec)
+                continue
+            if part == 9:
+                starts = [starts_for(v)[si]]
+                alphabet = tuple((0, op) for op in OPS + (mode,))
+                lmax = LC
+                if quick and ctx.optname == "novector":
+                    lmax = LC - 1
+                lengths = range(1, lmax + 1)
+                counter = "copy_histories"
+                need_copy = mode
+                mode = "pure"
+            elif part == 1:
                 starts = [starts_for(v)[si]]
                 alphabet = tuple((0, op) for op in OPS)
                 lmax = L
@@ -1370,7 +1757,7 @@ def run(run):
                 counter = "failing_read_two_packet_histories"
                 need_tn = True
             cur_st = stats_for(ctx)
-            keylen = 4 if part in (1, 6) else 3
+            keylen = 4 if part in (1, 6, 9) else 3
             keybase = "%d|%s|%d|%s|" % (part, ctx.cls.__name__, si, mode)
             run.cover("starts", "%s: %s" % (v["name"], starts))
             n_exec = 0
@@ -1397,6 +1784,8 @@ def run(run):
                 for rest in itertools.product(alphabet, repeat=length - 1):
                     ops = (first,) + rest
                     if need_tn and not _has_tn(ops):
+                        continue
+                    if need_copy and not _has_op(ops, need_copy):
                         continue
                     nt = _nontrivial(starts, ops)
                     if nt:
@@ -1449,6 +1838,10 @@ def run(run):
             run.extra["max_failing_read_history_length"] = LF
             run.extra["max_failing_read_two_packet_history_length"] = {"exhaustive": LF2, "sampled": LF2 + 3}
             run.extra["max_failing_read_nested_history_length"] = dict(LF3)
+            run.extra["max_copy_history_length"] = LC
+            run.extra["max_nested_history_length_optional_ref_default"] = LOPT
+            run.extra["max_nested_history_length_copied_outer"] = dict(LSHORT)
+            run.extra["fixed_script"] = "[copy] T0|T1, RD, PK, DEL, RD after every start (single packet: pure and observed mode)"
             run.extra["cpu_seconds"] = round(time.process_time() - c0, 1)
             if samples == 0 and ctxs:
                 ctx = ctxs[1]
@@ -1481,13 +1874,14 @@ def replay(run, rec):
             variant = [v for v in VARIANTS if v["name"] == w["variant"]][0]
             ictx = Ctx(getattr(module, w["inner_class"]), variant, w["options"], w["declaration"])
             nctx = NestedCtx(ictx, getattr(module, w["outer_class"]), w["outer_kind"], w["outer_options"], w["declaration"],
-                             w.get("ref_prototype", "class"), w.get("ref_prototype_keywords"))
+                             w.get("ref_prototype", "class"), w.get("ref_prototype_keywords"), w.get("outer_shape", "plain"))
             ops = tuple((int(i), str(op)) for i, op in w["ops"])
             st = Stats()
             pre = w.get("preceding_history_with_failed_computed_read_on_same_class")
             if pre:
                 pctx = NestedCtx(ictx, getattr(module, pre["outer_class"]), pre["outer_kind"], pre["outer_options"],
-                                 w["declaration"], pre.get("ref_prototype", "class"), pre.get("ref_prototype_keywords"))
+                                 w["declaration"], pre.get("ref_prototype", "class"), pre.get("ref_prototype_keywords"),
+                                 pre.get("outer_shape", "plain"))
                 execute_nested(pctx, pre["start"], tuple((int(i), str(op)) for i, op in pre["ops"]), Stats())
             run.case(key="replay", nontrivial=True)
             bad = execute_nested(nctx, w["start"], ops, st)
